@@ -12,8 +12,8 @@ What is transcribed (line numbers of the tree the model was written against):
   estimate `⌊e·30103/100000⌋+1`, drop / shift logic, multiplication by powers of five with the
   mid-loop right shifts (`mulLoop`), `bigIntDropDigits` (`dropDigits`).
 * `bigIntToString` (930-945)                        → `bigIntToString`.
-* `formatStringNumberDefault` (961-1060)            → `formatDefault`
-* `formatStringNumberFixed<Fixed_T>` (1062-1157)    → `formatFixed`
+* `formatStringNumberDefault` (961-1060)            → `formatDefault` = `defaultRound`, `defaultFraction`, `finishNumber`
+* `formatStringNumberFixed<Fixed_T>` (1062-1157)    → `formatFixed` = `fixedRound`, `fixedFraction`, `finishNumber`, `fixedPad`
 * `roundStringNumber` (1159-1198)                   → `roundStringNumber`
 * `insertPowerOfTen`, `insertZeros`, `insertZerosLarge` → `insertPowerOfTen`, `zerosShort`, `zerosLarge`.
 
@@ -288,119 +288,150 @@ def insertPowerOfTen (s : List Nat) (power : Nat) (positive : Bool) : M (List Na
   let s := if power < 10 then s ++ [Ch.zero] else s
   intToString s 4 false power
 
-/-- `formatStringNumberDefault` -/
-def formatDefault (start : Nat) (s : List Nat) (precision calculatedDigits fractionLength : Nat)
-    (isPositiveExp roundUp : Bool) : M (List Nat) := do
-  let numberLength ← csub 3 s.length start
-  let mut s := s
-  let mut index := start
-  let mut power := 0
-  let mut powerIncreased := false
-  let mut fractionLength := fractionLength
-  if precision < numberLength then
+/-! `formatStringNumberDefault` and `formatStringNumberFixed` are long functions that mutate
+`stream`, `index`, `power`, `power_increased`, `fraction_length`; the model cuts each of them into
+the consecutive blocks of the C++ body (same order of effects), passing those variables along. -/
+
+/-- `formatStringNumberDefault`, first block (`if (number_length > precision) { … }`): rounding and the
+positive-exponent decision.  Returns `(stream, index, power, power_increased, fraction_length)`. -/
+def defaultRound (start : Nat) (s : List Nat) (numberLength precision calculatedDigits fractionLength : Nat)
+    (isPositiveExp roundUp : Bool) : M (List Nat × Nat × Nat × Bool × Nat) :=
+  if precision < numberLength then do
     -- `--index; index += number_length - precision` wraps through 2^32 and back
     let r ← roundStringNumber start s (start + (numberLength - precision) - 1) roundUp
-    s := r.1; index := r.2.1; powerIncreased := r.2.2
-    if isPositiveExp then
+    if isPositiveExp then do
       let a ← csub 4 numberLength fractionLength
       let extra := if calculatedDigits ≤ precision then 0 else calculatedDigits - (precision + 1)
-      let diff ← csub 5 (a + extra) (if powerIncreased then 0 else 1)
+      let diff ← csub 5 (a + extra) (if r.2.2 then 0 else 1)
       if precision ≤ diff then
-        index := skipWhile Ch.zero s.length s index
-        power := diff
-        fractionLength := 0
+        pure (r.1, skipWhile Ch.zero r.1.length r.1 r.2.1, diff, r.2.2, 0)
+      else pure (r.1, r.2.1, 0, r.2.2, fractionLength)
+    else pure (r.1, r.2.1, 0, r.2.2, fractionLength)
+  else pure (s, start, 0, false, fractionLength)
+
+/-- second block (`if (fraction_length != 0) { … }`): the fraction layout.  Returns `(stream, index, power)`. -/
+def defaultFraction (start : Nat) (s : List Nat) (index power numberLength fractionLength : Nat)
+    (powerIncreased : Bool) : M (List Nat × Nat × Nat) :=
   if fractionLength ≠ 0 then
     let dotIndex := start + fractionLength
-    let fractionOnly := decide (numberLength ≤ fractionLength)
-    index := skipWhile Ch.zero s.length s index
-    if fractionOnly then
+    let index := skipWhile Ch.zero s.length s index
+    if numberLength ≤ fractionLength then
       let diff := if numberLength < fractionLength then fractionLength - numberLength else 0
       if !powerIncreased then
-        if diff < 4 then
+        if diff < 4 then do
           let zs ← zerosShort diff
-          s := s ++ zs ++ [Ch.dot, Ch.zero]
-        else
-          power := diff + 1
-      else if diff ≠ 0 ∧ diff < 5 then
+          pure (s ++ zs ++ [Ch.dot, Ch.zero], index, power)
+        else pure (s, index, diff + 1)
+      else if diff ≠ 0 ∧ diff < 5 then do
         let zs ← zerosShort (diff - 1)
-        s := s ++ zs ++ [Ch.dot, Ch.zero]
-      else
-        power := diff
-    else if index < dotIndex then
-      s ← insertAt start s Ch.dot dotIndex
-    else
+        pure (s ++ zs ++ [Ch.dot, Ch.zero], index, power)
+      else pure (s, index, diff)
+    else if index < dotIndex then do
+      let s ← insertAt start s Ch.dot dotIndex
+      pure (s, index, power)
+    else do
       let zeros ←
         if powerIncreased then csub 6 numberLength fractionLength
         else pure (let rem := index - start; if fractionLength < rem then rem - fractionLength else 0)
       let r ← restoreZeros start zeros s index
-      s := r.1; index := r.2
-  s := reverseFrom s start
+      pure (r.1, r.2, power)
+  else pure (s, index, power)
+
+/-- `stream.Reverse(started_at); stream.StepBack(index - started_at);` -/
+def finishNumber (start : Nat) (s : List Nat) (index : Nat) : M (List Nat) := do
   let back ← csub 7 index start
-  s ← stepBack start s back
-  if power ≠ 0 then
-    s ← insertAt start s Ch.dot (start + 1)
-    s ← insertPowerOfTen s power isPositiveExp
-  pure s
+  stepBack start (reverseFrom s start) back
+
+/-- `formatStringNumberDefault` -/
+def formatDefault (start : Nat) (s : List Nat) (precision calculatedDigits fractionLength : Nat)
+    (isPositiveExp roundUp : Bool) : M (List Nat) := do
+  let numberLength ← csub 3 s.length start
+  let a ← defaultRound start s numberLength precision calculatedDigits fractionLength isPositiveExp roundUp
+  let b ← defaultFraction start a.1 a.2.1 a.2.2.1 numberLength a.2.2.2.2 a.2.2.2.1
+  let s ← finishNumber start b.1 b.2.1
+  if b.2.2 ≠ 0 then do
+    let s ← insertAt start s Ch.dot (start + 1)
+    insertPowerOfTen s b.2.2 isPositiveExp
+  else pure s
+
+/-- `formatStringNumberFixed`, rounding block (`if (fraction_length > precision) { … }`).
+Returns `(stream, index, power_increased)`. -/
+def fixedRound (start : Nat) (s : List Nat) (precision fractionLength : Nat) (roundUp : Bool) :
+    M (List Nat × Nat × Bool) :=
+  if precision < fractionLength then do
+    let r ← roundStringNumber start s (start + (fractionLength - (precision + 1))) roundUp
+    pure (r.1, skipWhile Ch.zero r.1.length r.1 r.2.1, r.2.2)
+  else pure (s, start, false)
+
+/-- the layout block that follows (`if (fraction_only) … else if (index < dot_index) … else …`).
+Returns `(stream, index)`. -/
+def fixedFraction (start : Nat) (s : List Nat) (index numberLength fractionLength diff : Nat)
+    (powerIncreased : Bool) : M (List Nat × Nat) :=
+  let dotIndex := start + fractionLength
+  if numberLength ≤ fractionLength then
+    if index < s.length ∨ powerIncreased then
+      if diff ≠ 0 then do
+        let r ←
+          if powerIncreased then do
+            let index ← csub 9 index (if index = s.length then 1 else 0)
+            let s ← wrAt start s index Ch.one
+            pure (s, index)
+          else pure (s, index)
+        let diff ← csub 10 diff (if powerIncreased then 1 else 0)
+        let zs ← zerosLarge diff
+        pure (r.1 ++ zs ++ [Ch.dot, Ch.zero], r.2)
+      else if !powerIncreased then pure (s ++ [Ch.dot, Ch.zero], index)
+      else pure (s, index)
+    else do
+      let index ← csub 11 index 1
+      let s ← wrAt start s index Ch.zero
+      pure (s, index)
+  else if index < dotIndex then do
+    let s ← insertAt start s Ch.dot dotIndex
+    pure (s, index)
+  else do
+    let zeros ←
+      if powerIncreased then csub 12 numberLength fractionLength
+      else pure (let rem := index - start; if fractionLength < rem then rem - fractionLength else 0)
+    restoreZeros start zeros s index
+
+/-- the `if constexpr (Fixed_T)` tail: the point and the zeros up to `precision` -/
+def fixedPad (start : Nat) (s : List Nat) (index precision fractionLength : Nat)
+    (fractionOnly powerIncreased : Bool) : M (List Nat) :=
+  let dotIndex := start + fractionLength
+  if precision = 0 then pure s
+  else if dotIndex = index ∨ s.length - start = 1 ∨ (!fractionOnly ∧ powerIncreased) then do
+    let zs ← zerosLarge precision
+    pure (s ++ Ch.dot :: zs)
+  else if fractionOnly then do
+    let have_ ← csub 15 s.length (start + 2)     -- 2 is the length of "0."
+    let n ← csub 16 precision have_
+    let zs ← zerosLarge n
+    pure (s ++ zs)
+  else do
+    let n ← csub 17 precision (dotIndex - index)
+    let zs ← zerosLarge n
+    pure (s ++ zs)
 
 /-- `formatStringNumberFixed<Fixed_T>` (`fixedT = true` is Fixed, `false` is SemiFixed) -/
 def formatFixed (fixedT : Bool) (start : Nat) (s : List Nat) (precision fractionLength : Nat)
     (roundUp : Bool) : M (List Nat) := do
   let numberLength ← csub 8 s.length start
-  let mut s := s
-  let mut index := start
-  let dotIndex := start + fractionLength
-  let mut diff := if numberLength < fractionLength then fractionLength - numberLength else 0
-  let mut powerIncreased := false
+  let diff := if numberLength < fractionLength then fractionLength - numberLength else 0
   let fractionOnly := decide (numberLength ≤ fractionLength)
-  if fractionLength ≠ 0 then
-    if diff ≤ precision then
-      if precision < fractionLength then
-        let r ← roundStringNumber start s (index + (fractionLength - (precision + 1))) roundUp
-        s := r.1; index := r.2.1; powerIncreased := r.2.2
-        index := skipWhile Ch.zero s.length s index
-      if fractionOnly then
-        if index < s.length ∨ powerIncreased then
-          if diff ≠ 0 then
-            if powerIncreased then
-              index ← csub 9 index (if index = s.length then 1 else 0)
-              s ← wrAt start s index Ch.one
-            diff ← csub 10 diff (if powerIncreased then 1 else 0)
-            let zs ← zerosLarge diff
-            s := s ++ zs ++ [Ch.dot, Ch.zero]
-          else if !powerIncreased then
-            s := s ++ [Ch.dot, Ch.zero]
-        else
-          index ← csub 11 index 1
-          s ← wrAt start s index Ch.zero
-      else if index < dotIndex then
-        s ← insertAt start s Ch.dot dotIndex
-      else
-        let zeros ←
-          if powerIncreased then csub 12 numberLength fractionLength
-          else pure (let rem := index - start; if fractionLength < rem then rem - fractionLength else 0)
-        let r ← restoreZeros start zeros s index
-        s := r.1; index := r.2
-    else
-      index ← csub 13 (index + numberLength) 1
-      s ← wrAt start s index Ch.zero
-  s := reverseFrom s start
-  let back ← csub 14 index start
-  s ← stepBack start s back
-  if fixedT then
-    if precision = 0 then
-      pure s
-    else if dotIndex = index ∨ s.length - start = 1 ∨ (!fractionOnly ∧ powerIncreased) then
-      let zs ← zerosLarge precision
-      pure (s ++ Ch.dot :: zs)
-    else if fractionOnly then
-      let have_ ← csub 15 s.length (start + 2)     -- 2 is the length of "0."
-      let n ← csub 16 precision have_
-      let zs ← zerosLarge n
-      pure (s ++ zs)
-    else
-      let n ← csub 17 precision (dotIndex - index)
-      let zs ← zerosLarge n
-      pure (s ++ zs)
+  let r ←
+    if fractionLength ≠ 0 then
+      if diff ≤ precision then do
+        let a ← fixedRound start s precision fractionLength roundUp
+        let b ← fixedFraction start a.1 a.2.1 numberLength fractionLength diff a.2.2
+        pure (b.1, b.2, a.2.2)
+      else do
+        let index ← csub 13 (start + numberLength) 1
+        let s ← wrAt start s index Ch.zero
+        pure (s, index, false)
+    else pure (s, start, false)
+  let s ← finishNumber start r.1 r.2.1
+  if fixedT then fixedPad start s r.2.1 precision fractionLength fractionOnly r.2.2
   else pure s
 
 /-! ### realToString -/
